@@ -130,6 +130,156 @@ def lookup(ctx):
     ctx.observe("hits", len(got))
 
 
+def _agree(ctx, c, x, what):
+    """get_record(x) == the records of c whose identifier URI is the URI x denotes in c NOW"""
+    q = c.valid_qualified_name(x)
+    ctx.check(q is not None, "%s: the spelling does not resolve in the container" % what)
+    want = [r for r in c.get_records() if r.identifier is not None and r.identifier.uri == q.uri]
+    got = c.get_record(x)
+    got = [] if got is None else list(got)
+    ctx.check(len(got) == len(want), "%s: get_record returned %d records, the record list holds %d with the URI the name denotes"
+              % (what, len(got), len(want)))
+    for a, b in zip(got, want):
+        ctx.check(a is b, "%s: get_record returned other records than the record list holds under that URI" % what)
+    return want
+
+
+DERIVED = ["unified", "bundle.unified", "flattened", "update into empty", "constructor_records", "add_record", "json_container_decode",
+           "add_bundle(bundle)"]
+
+
+def own_spelling(ctx):
+    """a derived container resolves the spelling IT prints for each of its records, without any help from the caller"""
+    from prov.model import ProvDocument
+
+    path = ctx.params["path"]
+    src = ProvDocument()
+    src.add_namespace("loc", "http://l/" + ctx.str("lu", 1, 0, "name"))
+    has_def = ctx.bool("hasdef")
+    if has_def:
+        src.set_default_namespace("http://d/")
+    holder = src.bundle("loc:bb") if path in (1, 2, 7) else src
+    l1 = ctx.str("id", 2, 1, "name")
+    holder.entity("loc:" + l1, {"loc:k": 1})
+    holder.entity("loc:" + l1, {"loc:j": 2})
+    if has_def:
+        holder.activity(ctx.str("id", 2, 1, "name"))
+    holder.usage("loc:a", "loc:" + l1)
+    if path == 0:
+        c = src.unified()
+    elif path == 1:
+        c = holder.unified()
+    elif path == 2:
+        c = src.flattened()
+    elif path == 3:
+        c = ProvDocument()
+        c.update(src)
+    elif path == 4:
+        c = ProvDocument(records=src.get_records())
+    elif path == 5:
+        c = ProvDocument()
+        for r in src.get_records():
+            c.add_record(r)
+    elif path == 6:
+        from prov.serializers.provjson import decode_json_document, encode_json_document
+
+        c = ProvDocument()
+        decode_json_document(encode_json_document(src), c)
+    else:
+        other = ProvDocument()
+        other.add_bundle(holder)
+        c = [b for b in other.bundles][0]
+    n = 0
+    for r in c.get_records():
+        if r.identifier is None:
+            continue
+        n += 1
+        spelled = str(r.identifier)  # prefix:local (or the bare local name in the default namespace) as this container prints it
+        if path == 7 and c.valid_qualified_name(spelled) is None:
+            continue  # a bundle moved to another document: names it had resolved through its former document denote nothing now
+        want = _agree(ctx, c, spelled, "%s, own spelling" % DERIVED[path])
+        ctx.check(any(w is r for w in want), "%s: a record is not found under the spelling its container prints for it" % DERIVED[path])
+        _agree(ctx, c, r.identifier, "%s, QualifiedName" % DERIVED[path])
+        _agree(ctx, c, r.identifier.uri, "%s, full URI" % DERIVED[path])
+    ctx.check(n >= 1, "derived container lost its identified records")
+    ctx.observe("n", n)
+
+
+def same_prefix_three_uris(ctx):
+    """records arriving from three documents that bind ONE prefix to three URIs stay apart, under every spelling"""
+    from prov.identifier import Namespace, QualifiedName
+    from prov.model import ProvDocument
+
+    uris = ["http://e/", "http://other/", "http://third/" + ctx.str("tu", 1, 0, "name")]
+    c = ProvDocument()
+    c.add_namespace("ex", uris[0])
+    l = ctx.str("id", 2, 1, "name")
+    c.entity("ex:" + l)
+    how = ctx.params["how"]
+    order = ((1, 2), (2, 1), (1, 1, 2), (1, 2, 1))[ctx.params["order"]]
+    for i in order:
+        d = ProvDocument()
+        d.add_namespace("ex", uris[i])
+        r = d.entity("ex:" + (l if ctx.bool("same") else ctx.str("id", 2, 1, "name")), {"ex:k": i})
+        if how == 0:
+            c.add_record(r)
+        elif how == 1:
+            c.update(d)
+        else:
+            c.add_bundle(d, "ex:bundle%d" % len(list(c.bundles)))
+            c = c.flattened()
+    for i, u in enumerate(uris):
+        x = QualifiedName(Namespace("ex", u), l)
+        want = _agree(ctx, c, x, "QualifiedName ex:%s in namespace %d" % ("l", i))
+        for w in want:
+            ctx.check(w.identifier.uri == u + l, "a record is indexed under another URI than its own")
+        _agree(ctx, c, u + l, "full URI in namespace %d" % i)
+    for r in c.get_records():
+        want = _agree(ctx, c, str(r.identifier), "own spelling")
+        ctx.check(any(w is r for w in want), "a record is not found under the spelling its container prints for it")
+        # attribute names travelled with the record: they keep their URI
+        for a, v in r.attributes:
+            if a.localpart == "k":
+                ctx.check(a.uri == uris[v] + "k", "an attribute name changed its URI when the record arrived")
+    ctx.observe("n", len(c.get_records()))
+
+
+def relookup(ctx):
+    """the same string looked up before and after the URI it denotes has changed"""
+    from prov.model import ProvDocument
+
+    case = ctx.params["case"]
+    d = ProvDocument()
+    d.set_default_namespace("http://d0/")
+    d.add_namespace("ex", EX)
+    q = ctx.str("q", 2, 1, "name")
+    d.entity(q)
+    d.entity("ex:" + q)
+    _agree(ctx, d, q, "before")
+    _agree(ctx, d, "ex:" + q, "before")
+    ctx.check(len(d.get_record(q + "_absent")) == 0 and len(d.get_record("ex:" + q + "_absent")) == 0, "an absent name returned records")
+    if case == 0:
+        d.set_default_namespace("http://d1/")
+    elif case == 1:
+        other = ProvDocument()
+        other.set_default_namespace("http://d1/")
+        other.entity(q)
+        d.update(other)
+    else:
+        other = ProvDocument()
+        other.add_namespace("ex", "http://other/")
+        other.entity("ex:" + q)
+        d.update(other)
+    d.entity(q, {"ex:k": 2})
+    d.entity("ex:" + ctx.str("q2", 2, 1, "name"))
+    _agree(ctx, d, q, "after")
+    _agree(ctx, d, "ex:" + q, "after")
+    for r in d.get_records():
+        _agree(ctx, d, r.identifier, "QualifiedName")
+        _agree(ctx, d, str(r.identifier), "printed spelling")
+    ctx.observe("n", len(d.get_records()))
+
+
 def full_uri(ctx):
     """get_record(<full URI string>) finds the records whose identifier has exactly that URI, for any namespace URI"""
     from prov.model import ProvDocument
@@ -181,7 +331,29 @@ def _shards(tier):
     return out
 
 
-OBLIGATIONS = [
+_H_ASSUME = ["identifier local parts match [A-Za-z][A-Za-z0-9_]* (|l|<=2)"]
+_HIST = [
+    Obligation(name="own_spelling", fn=own_spelling, shards=[{"path": i} for i in range(len(DERIVED))],
+               desc="a container derived by unified / bundle.unified / flattened / update / constructor / add_record / JSON decode / add_bundle resolves, on its own, "
+                    "the spelling it prints for each of its records (prefix:local or bare local name), the QualifiedName and the full URI",
+               bounds="source: 2 same-identifier entities + optional default-namespace activity + usage, at top level or in a bundle; symbolic locals |l|<=2",
+               assumptions=_H_ASSUME, functions=["prov.model.ProvBundle.unified/get_record/add_record", "prov.model.ProvDocument.unified/flattened/update",
+                                                 "prov.model.NamespaceManager.valid_qualified_name"], budget_s=(100, 300), per_path_s=(20, 40)),
+    Obligation(name="same_prefix_three_uris", fn=same_prefix_three_uris, shards=[{"how": i, "order": o} for i in range(3) for o in range(4)],
+               desc="records arriving (add_record / update / add_bundle+flattened) from documents binding the one prefix ex to three different URIs, in 4 orders: "
+                    "get_record under QualifiedName, full URI and the container's own spelling agrees with the record list; attribute names keep their URI",
+               bounds="1 + 2-3 arriving records; symbolic locals |l|<=2 (same / different decided by the solver); third URI with a symbolic tail",
+               assumptions=_H_ASSUME, functions=["prov.model.NamespaceManager.add_namespace (prefix renaming)", "prov.model.ProvBundle.add_record/get_record"],
+               budget_s=(100, 300), per_path_s=(20, 40)),
+    Obligation(name="relookup", fn=relookup, shards=[{"case": i} for i in range(3)],
+               desc="history look-up -> the meaning of the string changes (new default namespace, update() bringing another default namespace / a clashing prefix) -> more records "
+                    "-> look-up: get_record(x) returns the records whose URI is the URI x denotes at that moment",
+               bounds="document-level; symbolic locals |l|<=2", assumptions=_H_ASSUME,
+               functions=["prov.model.ProvBundle.get_record", "prov.model.NamespaceManager.valid_qualified_name/set_default_namespace"],
+               budget_s=(100, 300), per_path_s=(20, 40)),
+]
+
+OBLIGATIONS = _HIST + [
     Obligation(
         name="full_uri",
         fn=full_uri,
